@@ -605,10 +605,13 @@ def make_tasks(tier):
         for i, _ in enumerate(corner_specs(d)):
             tasks.append(dict(block="C", d=d, spec=i, tier=tier, noises=list(NOISE_BOX), w=0.3))
         # block D: general-position kernels x complete data lattices
-        specs = full_data_specs(d, tier)
-        use = [0] if tier == "quick" else [0, 1, 2]
-        for i in use:
-            for noise in NOISE:
+        if tier == "quick":
+            dplan = [(0, noise) for noise in NOISE]
+        else:
+            dplan = [(0, NOISE[0]), (0, NOISE[1]), (0, NOISE[2]), (1, NOISE[0]), (1, NOISE[1]), (2, NOISE[0]),
+                     (2, NOISE[2])]
+        for i, noise in dplan:
+            if True:
                 for pi, (n, alpha, allt, single) in enumerate(data_plan("D", d, tier)):
                     total = n_multisets(len(alpha), n)
                     size = 1200 if n <= 2 else 700
@@ -700,7 +703,8 @@ RULE = (
     "{lower, init, upper-ish} levels, ARD vectors: all 3^d for d=2, constants+permutations for d=3) x noise "
     "{1e-6,1e-3,1} x mean {zero, scalar .5 | exp-decay mean} x all multisets over the sub-alphabets. "
     "Block C: true box corners inv_bw {1e-4,100} x cov_scale {1e-3,1e3} x noise {1e-9,1e6}. "
-    "Block D: 3 general-position kernels (1 in quick) x noise x ALL multisets over the full alphabet P_d (n<=5 for d=1, "
+    "Block D: 3 general-position kernels x 7 (kernel, noise) pairs (quick: 1 kernel x 3 noise levels) x ALL multisets "
+    "over the full alphabet P_d (quick: d=1 n<=5, d=2,3 n<=2; thorough: n<=5 for d=1, "
     "n<=3 for d=2,3; n=5 over 10-point sub-alphabets for d=2,3). "
     "Block Q: all operation sequences of length <=3 over {update(x,y), sample_and_update(x) with the normal draw stubbed to "
     "0,+1,-1 (and a mixed draw with mean_impute_mask), expand_fantasies(2|3)} from initial states with n0 in {1,2}, "
